@@ -30,7 +30,7 @@ MUTANTS = [
     ('string-floor-removed', PP, "            8 + len('\"\"')\n", "            -1000\n", ['C02', 'C12']),
     # ---- C03
     ('kwargs-reordered-when-broken', PP, "    allarg_docs = [*argdocs, *kwargdocs]\n", "    allarg_docs = [*argdocs, *(kwargdocs if len(kwargdocs) < 3 else kwargdocs[::-1])]\n", ['C17']),
-    ('dangle-comma-only-when-flat', PP, "    if dangle:\n        parts.append(COMMA)", "    if dangle:\n        parts.append(flat_choice(when_flat=COMMA, when_broken=NIL))", ['C03', 'C01']),
+    ('dangle-comma-only-when-flat', PP, "    if dangle and not (docs and is_commented(docs[-1])):\n        parts.append(COMMA)", "    if dangle and not (docs and is_commented(docs[-1])):\n        parts.append(flat_choice(when_flat=COMMA, when_broken=NIL))", ['C03', 'C01']),
     ('bracket-nest-plus-one', PP, "        nest(ctx.indent, concat([SOFTLINE, child])),", "        nest(ctx.indent + 1, concat([SOFTLINE, child])),", ['C03']),
     # ---- C04 / C05 / C06
     ('sline-indent-plus-one', LAY, "            yield SLine(indent)\n", "            yield SLine(indent + 1)\n", ['C04']),
